@@ -7,13 +7,15 @@ import json
 from harness import docgen, project, tlc
 
 RENDER_FIXED = True      # spec/Render.tla constant Fixed: TRUE since the D4 repair is committed in /repo
-S_ALPHABET = {"P", "H", "B", "C", "Q(", "Lt(", "Ll(", "I(", ")"}
+S_ALPHABET = {"P", "H", "B", "C", "T", "R", "Q(", "Lt(", "Ll(", "I(", ")"}
+LEAFS = {"P", "H", "B", "C"}      # leaf tokens the builder of Render.tla uses in the default bounded space
+RENDER_FIXED_T = False              # Render.tla constant FixedT (table / rule repair)
 MDIT_LACKS = ("fndef", "alert", "task", "fnref")
 
 
-def model_docs(max_nodes: int, max_depth: int):
+def model_docs(max_nodes: int, max_depth: int, leafs=None):
     """All documents of spec/RenderRead.tla up to the bound: {toks tuple: (lines, prefix_ok, rt_struct, rt_tight)}"""
-    res = tlc.run_tlc("RenderRead", tlc.cfg_text(constants=dict(MaxNodes=max_nodes, MaxDepth=max_depth, Fixed=RENDER_FIXED, DoDump=True),
+    res = tlc.run_tlc("RenderRead", tlc.cfg_text(constants=dict(MaxNodes=max_nodes, MaxDepth=max_depth, Leafs=set(leafs or LEAFS), FixedT=RENDER_FIXED_T, Fixed=RENDER_FIXED, DoDump=True),
                                                  invariants=["DumpDoc"]), timeout=3000, coverage=True)
     model = {}
     for r in res.reports:
@@ -103,7 +105,7 @@ def trace_of(tid: int, fam: str, r: dict, first=None) -> dict:
                 first=first or [])
 
 
-DOC_TRACE_CFG = tlc.cfg_text(spec="TraceSpec", constants=dict(MaxNodes=0, MaxDepth=0, Fixed=RENDER_FIXED, DoDump=False), invariants=["TraceReport"])
+DOC_TRACE_CFG = tlc.cfg_text(spec="TraceSpec", constants=dict(MaxNodes=0, MaxDepth=0, Leafs=LEAFS, FixedT=RENDER_FIXED_T, Fixed=RENDER_FIXED, DoDump=False), invariants=["TraceReport"])
 
 
 def heading_in_container(toks) -> bool:
